@@ -377,7 +377,10 @@ Definition e2e_restart_skipping (v : variant) (skip : list key) (w : world) : wo
 Record aworld := mkA { a_w : world; a_q : list (bytes * key) }.
 Definition aworld0 : aworld := mkA world0 [].
 
-Inductive a_op := ACreateI (k : key) | APadr (k : key) | ADeliver | APadt (k : key) | AOperI (k : key).
+(* the dispatcher starts both components' handlers for one event concurrently; they share only the registry, on which
+   each performs one atomic Release, so an overlap equals one of the two orders: ADeliver (ipoe handler first) and
+   ADeliverPI (pppoe handler first) *)
+Inductive a_op := ACreateI (k : key) | APadr (k : key) | ADeliver | APadt (k : key) | AOperI (k : key) | ADeliverPI.
 
 Definition a_step (v : variant) (aw : aworld) (o : a_op) : aworld :=
   let w := a_w aw in
@@ -401,6 +404,11 @@ Definition a_step (v : variant) (aw : aworld) (o : a_op) : aworld :=
       match a_q aw with
       | [] => aw
       | ev :: q => mkA (pppoe_terminate v (ipoe_terminate v w ev) ev) q
+      end
+  | ADeliverPI =>
+      match a_q aw with
+      | [] => aw
+      | ev :: q => mkA (ipoe_terminate v (pppoe_terminate v w ev) ev) q
       end
   | APadt k =>
       match m_get k (w_pp_key w) with
